@@ -116,6 +116,30 @@ def _traced_lattice_frame(exc):
   return found
 
 
+_FUNCTION_NODE = re.compile(r"\{\{function_node ([^}]*)\}\}")
+_NODE = re.compile(r"\{\{node ([^}]*)\}\}")
+
+
+def _graph_execution_node(exc):
+  """'graph:<node>' for an op error raised while EXECUTING a traced function.
+
+  The modules trace (tf.function, Keras models, model.fit) nothing but library
+  calls on inputs they built as valid; when an op of such a traced function
+  fails at run time (e.g. a gather index out of range) the Python traceback
+  holds no library frame at all - only TensorFlow's executor - and the message
+  names the function node.  Such errors are attributed to the library; a
+  harness mistake inside a traced wrapper would show on the unchanged tree.
+  """
+  mod = type(exc).__module__ or ""
+  if not mod.startswith("tensorflow.python.framework.errors"):
+    return None
+  msg = str(exc)
+  if not _FUNCTION_NODE.search(msg):
+    return None
+  m = _NODE.search(msg)
+  return "graph:" + (m.group(1) if m else "function")
+
+
 def safe_run(mod, case):
   """Runs mod.run_case(case); library exceptions become violations.
 
@@ -133,7 +157,8 @@ def safe_run(mod, case):
   except (KeyboardInterrupt, SystemExit):
     raise
   except Exception as e:  # pylint: disable=broad-except
-    where = _lattice_frame(e.__traceback__) or _traced_lattice_frame(e)
+    where = (_lattice_frame(e.__traceback__) or _traced_lattice_frame(e) or
+             _graph_execution_node(e))
     if where is None:
       raise HarnessError("harness exception on case %s:\n%s" %
                          (canonical(case)[:2000], traceback.format_exc()))
